@@ -9,7 +9,7 @@ use std::fmt;
 use crate::error::CryptoError;
 
 /// A TACT encryption key
-#[derive(Debug, Clone, Copy, PartialEq, Eq)]
+#[derive(Clone, Copy, PartialEq, Eq)]
 pub struct TactKey {
     /// Key identifier (hash of key name)
     pub id: u64,
@@ -42,6 +42,16 @@ impl TactKey {
     }
 }
 
+/// Debug output names the key but never shows its bytes (keys must not end up in logs)
+impl fmt::Debug for TactKey {
+    fn fmt(&self, f: &mut fmt::Formatter<'_>) -> fmt::Result {
+        f.debug_struct("TactKey")
+            .field("id", &format_args!("{:016X}", self.id))
+            .field("key", &"<redacted>")
+            .finish()
+    }
+}
+
 impl fmt::Display for TactKey {
     fn fmt(&self, f: &mut fmt::Formatter<'_>) -> fmt::Result {
         write!(f, "{:016X}: {}", self.id, hex::encode_upper(self.key))
@@ -49,9 +59,18 @@ impl fmt::Display for TactKey {
 }
 
 /// Store for TACT encryption keys
-#[derive(Debug, Clone)]
+#[derive(Clone)]
 pub struct TactKeyStore {
     keys: HashMap<u64, [u8; 16]>,
+}
+
+/// Debug output shows how many keys are held, never the keys
+impl fmt::Debug for TactKeyStore {
+    fn fmt(&self, f: &mut fmt::Formatter<'_>) -> fmt::Result {
+        f.debug_struct("TactKeyStore")
+            .field("keys", &format_args!("<{} redacted>", self.keys.len()))
+            .finish()
+    }
 }
 
 impl TactKeyStore {
